@@ -255,8 +255,15 @@ class _ReusablePoolExecutor(ProcessPoolExecutor):
                 time.sleep(1e-3)
 
             self._adjust_process_count()
-            processes = list(self._processes.values())
-            while not all(p.is_alive() for p in processes):
+            # Wait for the new workers to be alive. Look at the current set of
+            # workers at each iteration: a worker that left in the meantime
+            # (idle timeout, crash flagging the executor as broken, concurrent
+            # shutdown of the executor) is not coming back.
+            while not (
+                self._flags.broken or self._flags.shutdown
+            ) and not all(
+                p.is_alive() for p in list(self._processes.values())
+            ):
                 time.sleep(1e-3)
 
     def _wait_job_completion(self):
